@@ -5,6 +5,23 @@ import os, sys, json, importlib
 VERIF = os.path.dirname(os.path.dirname(os.path.abspath(__file__)))
 sys.path.insert(0, VERIF)
 os.chdir(VERIF)
+TEXT = {
+ 'C01': ('metamorphic + reference', 'generated programs (2-8 links over the whole step catalogue, 5 callable forms) compared lazy vs step-by-step vs split vs nested vs conditional-wrapped vs results()/process()/datastream(); user callables re-applied in plain Python; uninterpretable links must raise', 'Hypothesis program generator; differential/metamorphic oracle + plain-Python reference for user callables'),
+ 'C02': ('validity predicate', 'generated pipelines of built-in steps over typed inputs; every emitted row checked against the emitted descriptor with the schema library\'s cast; descriptor validity; results() must not fail', 'Hypothesis program generator; validity predicate (tableschema cast, datapackage validity)'),
+ 'C03': ('round trip + independent decoder', 'generated typed packages x dump options; load() round trip and a harness-written decoder that uses only the written descriptor', 'Hypothesis; round-trip oracle + independent decoder'),
+ 'C05': ('differential + completeness', 'observer inserted at drawn positions of generated programs; downstream result compared with the run without it; persisted/reported content compared with the stream at its position using harness decoders', 'Hypothesis program generator; differential oracle + independent decoders'),
+ 'C06': ('history invariant', 'counting sources with provenance tags; look-ahead measured at every delivery; bounded by a constant and not growing with stream length; early-stop pipelines read at most K+constant rows', 'Hypothesis program generator; invariant over the execution history (pull/delivery counters)'),
+ 'C09': ('recomputation', 'size / MD5 / row count recomputed from the written files and compared with the written descriptor and process() stats; two dumps compared', 'Hypothesis; recomputation oracle with independent decoder'),
+ 'C10': ('exhaustive product + differential', 'every selector-taking processor x every selector form x fixed packages enumerated completely, plus drawn packages; harness selector model; unselected == without the step, selected == unrestricted step on the sub-package', 'exhaustive enumeration of a finite configuration product + Hypothesis; selector reference model + differential oracle'),
+ 'C11': ('reference model', 'dict-of-lists join model written from the documentation; all 12 aggregators, 3 modes, key forms, wildcard, dedup mode; KVFile spill class', 'Hypothesis; reference model (bipartite matching for unordered parts)'),
+ 'C12': ('validity predicate + metamorphic', 'permutation, order under a reference key, stability, reverse == exact reverse, independence of batch size / cache spill', 'Hypothesis; validity predicate + metamorphic relations'),
+ 'C13': ('independent parse + policy model', 'harness-written CSV files re-read with csv.reader; header / strip / limit / strategy / on_error model; selector sub-check', 'Hypothesis; independent csv.reader oracle + policy model'),
+ 'C14': ('library cast + policy model', 'tableschema cast as the named reference, policy model for raise/drop/ignore/clear/custom handlers incl. call logs', 'Hypothesis; reference cast + policy model'),
+ 'C15': ('reference model', 'full-match pattern semantics, documented field order and operations', 'Hypothesis; reference model'),
+ 'C16': ('reference model + conservation', 'row-tag conservation and placement model for concatenate/duplicate/delete_resource/appends; sequential-source feed', 'Hypothesis; reference model + conservation invariant'),
+ 'C17': ('reference model', 'list-based models of filter_rows / deduplicate / unpivot', 'Hypothesis; reference model'),
+ 'C20': ('model-based histories', 'list-of-rows table model over generated dump histories into one SQLite file', 'Hypothesis-generated histories; reference table model'),
+}
 props = [json.loads(l) for l in open('properties.jsonl')]
 checks, na = [], []
 for p in props:
@@ -40,23 +57,6 @@ for p in props:
         'level_note': ns.get('LEVEL_NOTE', 'trusts: the harness reference model / decoder, Hypothesis generation, CPython; third-party libs (tableschema, datapackage, tabulator, kvfile) are part of the system under test unless stated'),
         'technique': ns.get('TECHNIQUE', TEXT[pid][2] if pid in TEXT else 'property-based testing (Hypothesis) against a reference model'),
     })
-TEXT = {
- 'C01': ('metamorphic + reference', 'generated programs (2-8 links over the whole step catalogue, 5 callable forms) compared lazy vs step-by-step vs split vs nested vs conditional-wrapped vs results()/process()/datastream(); user callables re-applied in plain Python; uninterpretable links must raise', 'Hypothesis program generator; differential/metamorphic oracle + plain-Python reference for user callables'),
- 'C02': ('validity predicate', 'generated pipelines of built-in steps over typed inputs; every emitted row checked against the emitted descriptor with the schema library\'s cast; descriptor validity; results() must not fail', 'Hypothesis program generator; validity predicate (tableschema cast, datapackage validity)'),
- 'C03': ('round trip + independent decoder', 'generated typed packages x dump options; load() round trip and a harness-written decoder that uses only the written descriptor', 'Hypothesis; round-trip oracle + independent decoder'),
- 'C05': ('differential + completeness', 'observer inserted at drawn positions of generated programs; downstream result compared with the run without it; persisted/reported content compared with the stream at its position using harness decoders', 'Hypothesis program generator; differential oracle + independent decoders'),
- 'C06': ('history invariant', 'counting sources with provenance tags; look-ahead measured at every delivery; bounded by a constant and not growing with stream length; early-stop pipelines read at most K+constant rows', 'Hypothesis program generator; invariant over the execution history (pull/delivery counters)'),
- 'C09': ('recomputation', 'size / MD5 / row count recomputed from the written files and compared with the written descriptor and process() stats; two dumps compared', 'Hypothesis; recomputation oracle with independent decoder'),
- 'C10': ('exhaustive product + differential', 'every selector-taking processor x every selector form x fixed packages enumerated completely, plus drawn packages; harness selector model; unselected == without the step, selected == unrestricted step on the sub-package', 'exhaustive enumeration of a finite configuration product + Hypothesis; selector reference model + differential oracle'),
- 'C11': ('reference model', 'dict-of-lists join model written from the documentation; all 12 aggregators, 3 modes, key forms, wildcard, dedup mode; KVFile spill class', 'Hypothesis; reference model (bipartite matching for unordered parts)'),
- 'C12': ('validity predicate + metamorphic', 'permutation, order under a reference key, stability, reverse == exact reverse, independence of batch size / cache spill', 'Hypothesis; validity predicate + metamorphic relations'),
- 'C13': ('independent parse + policy model', 'harness-written CSV files re-read with csv.reader; header / strip / limit / strategy / on_error model; selector sub-check', 'Hypothesis; independent csv.reader oracle + policy model'),
- 'C14': ('library cast + policy model', 'tableschema cast as the named reference, policy model for raise/drop/ignore/clear/custom handlers incl. call logs', 'Hypothesis; reference cast + policy model'),
- 'C15': ('reference model', 'full-match pattern semantics, documented field order and operations', 'Hypothesis; reference model'),
- 'C16': ('reference model + conservation', 'row-tag conservation and placement model for concatenate/duplicate/delete_resource/appends; sequential-source feed', 'Hypothesis; reference model + conservation invariant'),
- 'C17': ('reference model', 'list-based models of filter_rows / deduplicate / unpivot', 'Hypothesis; reference model'),
- 'C20': ('model-based histories', 'list-of-rows table model over generated dump histories into one SQLite file', 'Hypothesis-generated histories; reference table model'),
-}
 m = {
     'version': 1,
     'setup_cmd': '/venv/bin/python -c "import hypothesis" 2>/dev/null || /venv/bin/pip install --no-index --find-links /opt/veriftools/wheels hypothesis',
